@@ -114,7 +114,8 @@ class World {
   void queue_auth(int c, bool negotiate_fd, const std::string &authz_id_override = "\x01");
   void queue_raw(int c, const std::string &bytes, int expect_lines_delta = 0);
   // queue a message; returns index into sent[].  fds: real fds (ownership moves)
-  size_t queue_msg(int c, const wire::Msg &m, std::vector<int> fds = {});
+  // fd_at: offset inside the message of the byte the descriptors ride on (0 = the first byte)
+  size_t queue_msg(int c, const wire::Msg &m, std::vector<int> fds = {}, size_t fd_at = 0);
   wire::Msg hello_msg(int c);
   // move n bytes (or all if n<0) of the client's queue to the bus's socket
   void deliver(int c, long n = -1);
